@@ -21,6 +21,7 @@ FIXED = [
  ("C11", "65a3966", "a string longer than its capacity / a list whose items need more space was accepted silently and overwrote the neighbour", "corpus/C11/string_too_large.json"),
  ("C11", "9469b98", "Struct._update left earlier fields modified when a later field raised", "corpus/C11/partial_struct_update.json"),
  ("C02", "b262522", "C accessors through an array of dynamic items nested in a parent dropped the array's own offset (offset= instead of offset+=)", "corpus/C02/nested_array_of_dynamic_items.json"),
+ ("C14", "d9b1809", "a class without fields that another class depends on was listed (and its API emitted) twice; cffi rejected the build", "corpus/C14/fieldless_dependency_twice.json"),
 ]
 OPEN = []
 out = {"comment": "Read-only at run time. 'fixed' entries suppress nothing: the example is in corpus/ and is re-run by the check, so a regression is reported as a violation. 'open' entries are attributed by feature + counterfactual (DESIGN.md section 7).",
